@@ -121,7 +121,10 @@ func workerMain(property string, args []string, register func(r *Registry)) int 
 	}
 	runtime.GOMAXPROCS(1)
 	r := buildRegistry(tier, register)
-	e := &explorer{tier: tier, worker: k, nworkers: n, deadline: deadline, res: &workerResult{OutcomeSet: map[string][]uint64{}, NTSet: map[string][]uint64{}}, maxViol: 40, poison: map[string]bool{}}
+	e := &explorer{tier: tier, worker: k, nworkers: n, deadline: deadline, res: &workerResult{OutcomeSet: map[string][]uint64{}, NTSet: map[string][]uint64{}}, maxViol: 40, poison: map[string]bool{}, selfTestN: 16}
+	if len(r.scenarios) > 500 {
+		e.selfTestN = 3
+	}
 	if journal != "" {
 		f, err := os.OpenFile(journal, os.O_CREATE|os.O_RDWR|os.O_TRUNC, 0o644)
 		if err == nil {
